@@ -110,6 +110,17 @@ func (c *Ctx) Guard(rule string, fn *ssa.Function, sites []ssa.Instruction, site
 							}
 						}
 					}
+					// "X is called before the function exits": a deferred call registered on the
+					// path runs at the return
+					if _, isRet := site.(*ssa.Return); isRet {
+						if _, isDefer := in.(*ssa.Defer); isDefer {
+							for _, n := range nd.Calls {
+								if callMatches(in, n) {
+									return true
+								}
+							}
+						}
+					}
 					return false
 				},
 				Kill: kill,
